@@ -1118,7 +1118,7 @@ def translate_group(group):
             parts.append('/-- %s:%s (line %d) -/' % (f['file'], f['func'], node.lineno))
             parts.append(body)
             parts.append('')
-        except (TranslationError, SyntaxError, OSError) as e:
+        except Exception as e:     # also the error class of an extension module (translate_ext/*), whatever it is
             errors.append('%s:%s: %s' % (f['file'], f['func'], e))
             # an untranslatable function leaves a definition out: the tie theorem that names it fails to compile
             parts.append('-- TRANSLATION FAILED for %s:%s: %s' % (f['file'], f['func'], str(e).replace('\n', ' ')))
